@@ -167,7 +167,25 @@ def guarded(fn, *a):
         return fn(*a)
 
 
+class Unbuildable:
+    """the library's own constructors refused a record of the grid (e.g. an address at a boundary)"""
+
+    def __init__(self, e):
+        self.exc = "constructor:" + type(e).__name__
+
+
+def build_safe(rec):
+    try:
+        return build(rec)
+    except Hang:
+        raise
+    except Exception as e:
+        return Unbuildable(e)
+
+
 def enc_direct(obj):
+    if isinstance(obj, Unbuildable):
+        return {"ok": False, "exc": obj.exc, "oct": []}
     try:
         def go():
             bvlpdu = BVLPDU()
@@ -181,6 +199,8 @@ def enc_direct(obj):
 
 
 def enc_codec(obj):
+    if isinstance(obj, Unbuildable):
+        return {"ok": False, "exc": obj.exc, "oct": []}
     del BELOW.sent[:]
     try:
         obj.pduDestination = PEER
@@ -370,7 +390,7 @@ def replay_enc_vector(chk, v):
         return
     rp = {"kind": "enc", "rec": rec}
     try:
-        outs = {"direct": enc_direct(build(rec)), "codec": enc_codec(build(rec))}
+        outs = {"direct": enc_direct(build_safe(rec)), "codec": enc_codec(build_safe(rec))}
         backs = {"decode": dec_direct(exp), "confirmation": dec_codec(exp)}
     except Hang:
         return hang(chk, NAMES[fn], rp)
@@ -489,7 +509,9 @@ def stale_length(chk):
         rec = {1: {"fn": 1, "bdt": []}, 3: {"fn": 3, "bdt": []}, 7: {"fn": 7, "fdt": []},
                4: {"fn": 4, "addr": {"ip": [10, 0, 0, 1], "port": 47808}, "npdu": [1, 0]}}.get(fn, {"fn": fn, "npdu": [1, 0]})
         for path, enc in (("direct", enc_direct), ("codec", enc_codec)):
-            obj = build(rec)
+            obj = build_safe(rec)
+            if isinstance(obj, Unbuildable):
+                continue
             mutate(obj)
             got = enc(obj)
             chk.case(("stale", fn, path), nontrivial=True)
@@ -617,7 +639,7 @@ def record_random(chk, rng, n_enc, n_dec):
         rec = r_rec(rng, small=(i % 3 == 0))
         t = {"id": len(recs) + 1, "k": "enc", "rec": rec, "label": NAMES[rec["fn"]]}
         try:
-            t["enc"], t["enc2"] = enc_direct(build(rec)), enc_codec(build(rec))
+            t["enc"], t["enc2"] = enc_direct(build_safe(rec)), enc_codec(build_safe(rec))
             t["back"] = dec_direct(t["enc"]["oct"]) if t["enc"]["ok"] else {"kind": "none"}
             t["back2"] = dec_codec(t["enc2"]["oct"]) if t["enc2"]["ok"] else {"up": False, "exc": "none"}
         except Hang:
@@ -657,7 +679,7 @@ def record_services(chk, rng, n, obs):
     frames = {}     # Annex J octets of incoming requests come from the message classes validated above
 
     def wire(rec):
-        return enc_direct(build(rec))["oct"]
+        return enc_direct(build_safe(rec))["oct"]
 
     def call(fn, *a, **kw):
         # an exception escaping a service here is not by itself a clause of C09: recorded as a deviation
@@ -901,7 +923,7 @@ def replay(path):
     kind = rp["kind"]
     if kind == "enc":
         rec = rp["rec"]
-        t = {"id": 1, "k": "enc", "rec": rec, "label": NAMES[rec["fn"]], "enc": enc_direct(build(rec)), "enc2": enc_codec(build(rec))}
+        t = {"id": 1, "k": "enc", "rec": rec, "label": NAMES[rec["fn"]], "enc": enc_direct(build_safe(rec)), "enc2": enc_codec(build_safe(rec))}
         t["back"] = dec_direct(t["enc"]["oct"]) if t["enc"]["ok"] else {"kind": "none"}
         t["back2"] = dec_codec(t["enc2"]["oct"]) if t["enc2"]["ok"] else {"up": False, "exc": "none"}
         print(json.dumps({k: _short(v) for k, v in t.items()}))
